@@ -65,8 +65,20 @@ fn src_and_iid(rng: &mut Rng) -> (u8, u8) {
 }
 
 pub fn set_eid_request(rng: &mut Rng, own: u8) -> Vec<u8> {
-    let (s, iid) = src_and_iid(rng);
-    let eid = rng.range(1, 0xFE) as u8;
+    let (mut s, iid) = src_and_iid(rng);
+    let mut eid = rng.range(1, 0xFE) as u8;
+    // related values: a requester that has the endpoint's own address, an EID equal to the
+    // endpoint's address or to the requester's
+    match rng.below(16) {
+        0 => s = own & 0x7F,
+        1 if own & 0x7F != 0 => eid = own & 0x7F,
+        2 if s != 0 => eid = s,
+        3 if own & 0x7F != 0 => {
+            s = own & 0x7F;
+            eid = own & 0x7F;
+        }
+        _ => {}
+    }
     ctrl_request(own & 0x7F, s, iid, false, 0x01, &[rng.below(2) as u8, eid])
 }
 
@@ -81,7 +93,10 @@ pub fn instantiate(l: Letter, rng: &mut Rng, m: &Model) -> Op {
             Op::Process(ctrl_request(own, s, iid, false, 0x01, &[3, rng.byte()]))
         }
         Letter::GetEid => {
-            let (s, iid) = src_and_iid(rng);
+            let (mut s, iid) = src_and_iid(rng);
+            if rng.chance(1, 8) {
+                s = own;
+            }
             Op::Process(ctrl_request(own, s, iid, false, 0x02, &[]))
         }
         Letter::Query => {
